@@ -64,6 +64,23 @@ var (
 	devs  = map[string]*spec.Device{}
 )
 
+type target struct {
+	s string
+	u uint8
+}
+
+// collidingTargets: server addresses that are prefixes of one another, with unit ids whose decimal digits complete the
+// longer address ("h:502"+"10" = "h:5021"+"0"), and names containing the separator characters a grouping key might use.
+func collidingTargets() []target {
+	var out []target
+	for _, s := range []string{"h:50", "h:502", "h:5021", "h_1", "h", "h 1"} {
+		for _, u := range []uint8{0, 1, 2, 10, 11, 12, 21, 210} {
+			out = append(out, target{s, u})
+		}
+	}
+	return out
+}
+
 func device(image int, server string, unit uint8) *spec.Device {
 	k := fmt.Sprintf("%d/%s/%d", image, server, unit)
 	devMu.Lock()
@@ -71,7 +88,11 @@ func device(image int, server string, unit uint8) *spec.Device {
 	if d, ok := devs[k]; ok {
 		return d
 	}
-	salt := int(unit)*7919 + int(server[0])*104729
+	salt := int(unit) * 7919
+	for _, ch := range []byte(server) { // the whole name: "h:502" and "h:5021" must be different devices
+		salt = salt*131 + int(ch)
+	}
+	salt &= 0xFFFFF
 	var reg func(t, a int) uint16
 	switch image {
 	case 0:
@@ -416,6 +437,19 @@ func run(tier string, shard, nsh int, res *ev.Result) {
 				}
 			})
 		}
+		jobs = append(jobs, func(lc *local) { // pairs of targets whose names / unit ids concatenate ambiguously
+			targets := collidingTargets()
+			fa := F{Addr: 10, Type: 5}
+			fb := F{Addr: 12, Type: 9}
+			for _, ta := range targets {
+				for _, tb := range targets {
+					a, b := fa, fb
+					a.Server, a.Unit = ta.s, ta.u
+					b.Server, b.Unit = tb.s, tb.u
+					eval(Case{FC: cf.fc, RTU: cf.rtu, Lenient: cf.lenient, Image: 1, Truncate: -1, Fields: []F{a, b}}, res, lc)
+				}
+			}
+		})
 		for _, img := range images {
 			img := img
 			for i0 := 0; i0 < len(pairAlpha); i0 += 8 {
